@@ -246,6 +246,14 @@ func (propC05) Check(r *Run) []Violation {
 			if len(bytes.TrimSpace(c.Body)) == 0 {
 				add("C05/empty-error-body", "backend error %d relayed with an empty body", answered.Status)
 			}
+		} else if mode == "malformed-json" && route == "anthropic" && answered.Path == "/v1/chat/completions" && op.Body.Stream {
+			// streaming: the backend's 200 carried nothing a completion could be made of; a well-formed
+			// Anthropic message with no content is a fabricated completion all the same
+			if c.Status < 400 && bytes.Contains(c.Body, []byte("message_stop")) {
+				add("C05/fabricated-completion-from-malformed-backend-json", "backend sent %q; client got status %d and a complete message stream %.200q", string(answered.BodyWrote), c.Status, c.Body)
+			} else if c.Status < 400 && len(bytes.TrimSpace(c.Body)) == 0 {
+				add("C05/empty-error-body", "backend sent %q; client got status %d with an empty body", string(answered.BodyWrote), c.Status)
+			}
 		} else if mode == "malformed-json" && route == "anthropic" && answered.Path == "/v1/chat/completions" && !op.Body.Stream {
 			if c.Status < 400 {
 				add("C05/fabricated-completion-from-malformed-backend-json", "backend sent %q; client got status %d body %q", string(answered.BodyWrote), c.Status, head)
